@@ -325,6 +325,7 @@ def run(rep, tier, seed):
                 # 6 clusters carry the numbers 0x..F0-0x..F5: the prefill ends 0-2 clusters in front of them
                 scripts.append(file_session(rng, None, 30 if tier == "quick" else 60, head=t[1], cluster=t[2],
                                             prefill=(keep - 6 - rng.below(3)) * t[2] - rng.below(2)))
+    scripts += [sc_ for _, sc_ in sessions.matrix_sessions(rng, tier)]        # the standard script on every boundary volume
     judged = sessions.run_judged(scripts, flags=("tree",), shards=16)
     boundary = 0
     for jd in judged:
